@@ -36,6 +36,7 @@ type request struct {
 	Values   []string     `json:"values"` // typed ZSON
 	Projs    [][][]string `json:"projs"`
 	Meta     bool         `json:"meta"` // also report the metadata shape
+	SkipVec  bool         `json:"skipvec,omitempty"` // only write, metadata and row reader
 }
 
 type readResult struct {
@@ -190,6 +191,9 @@ func runRequest(req *request, emit func(*response)) {
 		res.Row.Vals = append(res.Row.Vals, canon(v))
 	}
 	res.Row.Flat = flatAll(rowVals)
+	if req.SkipVec {
+		return
+	}
 	// vector cache + materializer, whole values
 	emit(&response{ID: req.ID, Stage: "vec"})
 	res.Vec = &readResult{}
